@@ -10,13 +10,15 @@
                                     the code computes (now + 60 s = 60000 in ms since the start of the
                                     history), else the deadline is placed at adj ms through the hook
             | (1 seq rid err dec)   Dispatch of response packet number rid: sequence number, error code
-                                    (0 = a reply body), whether its command id is a registered message
+                                    (0 = a reply body), dec = 0 its command id is no registered message,
+                                    1 the body is the marshalled reply, 2 the body is the reply object
+                                    itself; the same (seq, rid) again = the same packet object again
             | (2 now)               the expiry sweep at start + now ms (hook VerifSweep)
             | (3)                   ReapTimeout()
             | (4 n)                 n times: AsyncCall, then Dispatch of a good reply to it (a macro: the
                                     model executes the 2n primitive operations)
    observed : a = sequence number of the request put on PendingQueue (call; last one for (4 n)),
-              b = Dispatch: 0 nil / 1 error;  ReapTimeout: its result;  (4 n): number of anomalies seen
+              b = Dispatch: 0 nil / 1 error / 3 the error the completed call's callback returned;  ReapTimeout: its result;  (4 n): number of anomalies seen
               inside (a call not completed exactly once with its own reply, a zero or busy number),
               then the completions that happened during the op, sorted by call.
    A case ((c0) (-2 k what)) is the table-full scenario, evaluated by the harness itself: 65535 calls
@@ -45,7 +47,7 @@ Definition natural_dl : Z := 60000.
 Definition prim_of (s : sx) : option op :=
   match s with
   | SList [SInt 0; SInt sy; SInt adj] => Some (OCall (sy =? 1) (if adj =? 0 then natural_dl else adj))
-  | SList [SInt 1; SInt seq; SInt rid; SInt err; SInt dec] => Some (ODispatch (mkresp seq rid err (dec =? 1)))
+  | SList [SInt 1; SInt seq; SInt rid; SInt err; SInt dec] => Some (ODispatch (mkresp seq rid err (negb (dec =? 0))))
   | SList [SInt 2; SInt now] => Some (OSweep now)
   | SList [SInt 3] => Some OReap
   | _ => None
@@ -55,7 +57,7 @@ Definition hop_of (s : sx) : option hop :=
   match s with
   | SList [SInt 1; SInt seq; SInt rid; SInt err; SInt dec; SList nested] =>
       match map_opt prim_of nested with
-      | Some l => Some (HPrim (ODispatch (mkresp seq rid err (dec =? 1))) 1 l)
+      | Some l => Some (HPrim (ODispatch (mkresp seq rid err (negb (dec =? 0)))) 1 l)
       | None => None
       end
   | SList [SInt 3; SInt k; SList nested] =>
@@ -103,11 +105,16 @@ Definition callbacks (cs : list comp) : Z := Z.of_nat (length (filter (fun c => 
 Definition not_run (b : obs) : bool := (oa b =? -9) && match oc b with [] => true | _ => false end.
 Definition no_comps (b : obs) : bool := match oc b with [] => true | _ => false end.
 
+(* what Dispatch returns: the callback's own error (3) if the completed call's callback fails - the
+   harness lets the callbacks of the calls number 3, 8, 13, ... fail - else the model's answer *)
+Definition exp_res (x : out) : Z :=
+  if existsb (fun c => (khow c =? 1) && (kcid c mod 5 =? 3)) (ocomps x) then 3 else ores x.
+
 (* ---- walk 1: the model ---- *)
 Definition cmp_model (o : op) (x : out) (b : obs) : verdict :=
   vjoin (check_that (negb (oa b =? -9) && negb (oa b =? -8)) (VMismatch 4))
  (vjoin (check_that (match o with OCall _ _ => oseq x =? oa b | _ => true end) (VMismatch 1))
- (vjoin (check_that (match o with OCall _ _ => true | _ => ores x =? ob b end) (VMismatch 2))
+ (vjoin (check_that (match o with OCall _ _ => true | ODispatch _ => exp_res x =? ob b | _ => ores x =? ob b end) (VMismatch 2))
         (check_that (comps_eqb (ocomps x) (oc b)) (VMismatch 3)))).
 
 (* the nested ops: executed (in order, right after the op that triggered them: a completion changes
@@ -169,7 +176,7 @@ Definition prop_one (s : st) (swept : list Z) (o : op) (b : obs) : st * list Z *
                (check_that (no_comps b) (VPropFail 7))))
   | ODispatch r =>
       let '(s', x) := step s o in
-      let good := (ores x =? ob b) && comps_eqb (ocomps x) (oc b) in
+      let good := (exp_res x =? ob b) && comps_eqb (ocomps x) (oc b) in
       let code := if has (rseq r) (pending s) then 3%N
                   else if memz (rseq r) swept then 6%N else 4%N in
       (s', swept, callbacks (ocomps x), check_that good (VPropFail code))
@@ -230,6 +237,9 @@ Definition check_history (c0 : Z) (ops os : list sx) : verdict :=
 
 Definition check (c : sx) : verdict :=
   match c with
+  | SList [SList [SInt 7; SInt _]; SList [SInt (-6); SInt k; _]] =>
+      (* the client's own reaper goroutine (Go(): 3 s ticker), evaluated on the Go side *)
+      if (k =? 0) || (k =? 9) then VOk else if k =? 5 then VPropFail 5 else if k =? 3 then VPropFail 3 else VPropFail 7
   | SList [SList [SInt 6; SInt _; SInt _]; SList [SInt (-5); SInt k; _]] =>
       (* the time-to-live at sub-second resolution (sweeps just before / at / after issue instant + 60 s
          for calls issued at several phases of the wall clock), evaluated on the Go side *)
